@@ -47,6 +47,11 @@ def rv(r):
     return k
 
 
+def mirsite(body, bi):
+    from .mirlib import Site
+    return Site(body, bi, len(body.blocks[bi]["stmts"]))
+
+
 def show(body, origins=False):
     m = body.mir
     print("==", body.path, body.file, body.info.get("lo"))
@@ -71,11 +76,11 @@ def show(body, origins=False):
             print("    %s = CALL %s(%s) -> bb%s unwind %s  // %d %s" % (pl(t["dest"]), f.get("def", f.get("op")), ", ".join(op(a) for a in t["args"]), t["t"], t["u"], t["ln"], extra or ""))
             if origins:
                 for a in t["args"]:
-                    print("        arg origin:", body.origin_op(a))
+                    print("        arg origin:", body.origin_op(a, 0, None, mirsite(body, i)))
         elif t["k"] == "switch":
             print("    switch %s %s else bb%d // %d" % (op(t["o"]), t["targets"], t["otherwise"], t["ln"]))
             if origins:
-                print("        discr origin:", body.origin_op(t["o"]))
+                print("        discr origin:", body.origin_op(t["o"], 0, None, mirsite(body, i)))
         elif t["k"] == "drop":
             print("    drop %s [%s] -> bb%d unwind %s" % (pl(t["p"]), t["ty"][:60], t["t"], t["u"]))
         elif t["k"] == "goto":
